@@ -9,6 +9,7 @@ from fractions import Fraction as Fr
 
 import vf.env  # noqa: F401
 from vf import core, sched
+from vf.env import REAL, td
 from pjplan import Task, WBS
 
 META = {
@@ -35,10 +36,15 @@ def num(txt):
 def gen_case(rnd, tier='quick'):
     n = rnd.randint(1, 10 if tier == 'thorough' else 9)
     fractional = rnd.random() < 0.7
+    dated = rnd.random() < 0.3
     pool = DEC if fractional else ['0', '1', '2', '3', '8', '5']
     tasks = []
     for k in range(n):
         t = {'id': k + 1, 'parent': None, 'estimate': rnd.choice(pool + [None]), 'spent': rnd.choice([None, None, '0', '0.1', '1', '5'] if fractional else [None, None, '0', '1', '5'])}
+        if dated:
+            # dates on the tasks (as after a scheduling run, or typed by hand): the critical path does not depend on them
+            s_ = REAL(2026, 1, 5) + td(days=rnd.randint(0, 20))
+            t['start'], t['end'] = s_, s_ + td(days=rnd.randint(0, 9), hours=rnd.choice([0, 6]))
         if tasks and rnd.random() < 0.4:
             t['parent'] = rnd.randrange(len(tasks))
         tasks.append(t)
@@ -127,7 +133,7 @@ def build(case):
     w = WBS()
     objs = []
     for t in case['tasks']:
-        objs.append(Task(t['id'], f"t{t['id']}", estimate=num(t['estimate']), spent=num(t['spent'])))
+        objs.append(Task(t['id'], f"t{t['id']}", estimate=num(t['estimate']), spent=num(t['spent']), start=t.get('start'), end=t.get('end')))
     for i, t in enumerate(case['tasks']):
         (w.roots if t['parent'] is None else objs[t['parent']].children).append(objs[i])
     for s_, p_ in case['links']:
